@@ -29,6 +29,7 @@ type FuncCFG struct {
 	regionOf     map[*cfg.Block]*region  // nil entry = the analysed function itself
 	noConsist    int                     // >0: reach does plain reachability (no boolean consistency)
 	factCache    map[interface{}][]fact  // EdgeFacts per (block, branch)
+	regionEntry  map[*cfg.Block]*region  // first block of a spliced helper -> its region (named results are zero there)
 	rescan       map[*cfg.Block]bool     // spliced blocks: only calls of bound function values are expanded
 	litOnStack   map[*ast.BlockStmt]bool // literal bodies being spliced (recursion guard)
 	// CallsOpaque: Resolve/KeyAt do not look into spliced helpers for the value a call returns (the
@@ -41,6 +42,7 @@ type region struct {
 	call   *ast.CallExpr
 	fd     *ast.FuncDecl
 	callPt Point // the call node in the caller (first node of the continuation block)
+	argPt  Point // the end of the block before the call (the arguments are evaluated there); used when every return of the helper was classified and the generic continuation block is dead
 	parent *region
 	rets   []retInfo // the helper's return sites (result expressions, evaluated at pt)
 	// a method spliced at a call of a function value bound to a method value: what its receiver is
@@ -292,6 +294,9 @@ func (f *FuncCFG) reach(from Point, o *searchOpts, target func(pt Point, atExit 
 				return -1
 			}
 		}
+		if f.P != nil && f.P.sentinelError(objOfIdentRaw(f.Info, e)) {
+			return 1
+		}
 		return 0
 	}
 	isBoolVar := func(e ast.Expr) types.Object {
@@ -457,20 +462,31 @@ func (f *FuncCFG) reach(from Point, o *searchOpts, target func(pt Point, atExit 
 			cp[ob] = v
 			facts = cp
 		}
+		// the first block of a spliced helper: its named boolean / error / pointer results hold their
+		// zero value (false / nil) until they are assigned
+		if rg := f.regionEntry[it.b]; rg != nil && it.i == 0 && f.noConsist == 0 && rg.fd != nil && rg.fd.Type.Results != nil {
+			for _, fl := range rg.fd.Type.Results.List {
+				for _, nm := range fl.Names {
+					if ob := tracked(nm); ob != nil {
+						setFact(ob, false)
+					}
+				}
+			}
+		}
 		for i := it.i; i < len(it.b.Nodes); i++ {
 			n := it.b.Nodes[i]
+			if rs, isRet := n.(*ast.ReturnStmt); isRet && o != nil && o.AvoidRet != nil && f.regionOf[it.b] == nil {
+				if o.AvoidRet(rs, func(e ast.Expr) int8 { return valueOf(e, facts, rets) }) {
+					blocked = true
+					break
+				}
+			}
 			if target(Point{it.b, i}, false) {
 				return append(path, f.P.posStr(n.Pos())), true
 			}
 			if f.nodeBlocked(n, o) {
 				blocked = true
 				break
-			}
-			if rs, isRet := n.(*ast.ReturnStmt); isRet && o != nil && o.AvoidRet != nil && f.regionOf[it.b] == nil {
-				if o.AvoidRet(rs, func(e ast.Expr) int8 { return valueOf(e, facts, rets) }) {
-					blocked = true
-					break
-				}
 			}
 			if f.noConsist == 0 {
 				// a return site of a spliced helper: what its error result is on this path
@@ -1170,6 +1186,20 @@ func (f *FuncCFG) Calls(pred func(*ast.CallExpr) bool) []*ast.CallExpr {
 // paramArg: if obj is a parameter or the receiver of a helper that was expanded around pt, the
 // argument expression it stands for and the point of the call in the caller.
 func (f *FuncCFG) paramArg(obj types.Object, pt Point) (ast.Expr, Point, bool) {
+	e, p, ok := f.paramArg0(obj, pt)
+	if ok && p.B != nil && !p.B.Live {
+		// the continuation block the call sits in is dead (all returns of the helper were classified
+		// into the correlated copies): evaluate the argument at the end of the block before the call
+		for reg := f.regionOf[pt.B]; reg != nil; reg = reg.parent {
+			if reg.callPt == p && reg.argPt.B != nil && reg.argPt.B.Live {
+				return e, reg.argPt, true
+			}
+		}
+	}
+	return e, p, ok
+}
+
+func (f *FuncCFG) paramArg0(obj types.Object, pt Point) (ast.Expr, Point, bool) {
 	for reg := f.regionOf[pt.B]; reg != nil; reg = reg.parent {
 		if reg.fd.Recv != nil && len(reg.fd.Recv.List) == 1 && len(reg.fd.Recv.List[0].Names) == 1 && f.Info.Defs[reg.fd.Recv.List[0].Names[0]] == obj {
 			if reg.recvX != nil {
@@ -1605,6 +1635,99 @@ func (f *FuncCFG) AfterComm(pred func(ast.Node) bool) []Point {
 	return out
 }
 
+// selfAliases: the receiver variable of the analysed method together with the receiver variables of
+// the helpers spliced into it that were called on it (`l.poll()` inside Wait: poll's `l` is Wait's `l`).
+func (f *FuncCFG) selfAliases(self types.Object) map[types.Object]bool {
+	out := map[types.Object]bool{}
+	if self == nil {
+		return out
+	}
+	out[self] = true
+	regs := map[*region]bool{}
+	for _, rg := range f.regionOf {
+		for ; rg != nil; rg = rg.parent {
+			regs[rg] = true
+		}
+	}
+	for changed := true; changed; {
+		changed = false
+		for rg := range regs {
+			if rg.fd == nil || rg.fd.Recv == nil || len(rg.fd.Recv.List) != 1 || len(rg.fd.Recv.List[0].Names) != 1 {
+				continue
+			}
+			ro := f.Info.Defs[rg.fd.Recv.List[0].Names[0]]
+			if ro == nil || out[ro] {
+				continue
+			}
+			x := rg.recvX
+			if x == nil && rg.call != nil {
+				if se, ok := ast.Unparen(rg.call.Fun).(*ast.SelectorExpr); ok {
+					x = se.X
+				}
+			}
+			if x != nil && out[objOfIdent(f.Info, x)] {
+				out[ro] = true
+				changed = true
+			}
+		}
+	}
+	return out
+}
+
+// sentinelError: a package-level error variable initialised by an error constructor and never
+// assigned anywhere in its package - it is non-nil.
+func (p *Prog) sentinelError(o types.Object) bool {
+	v, ok := o.(*types.Var)
+	if !ok || v.IsField() || v.Pkg() == nil || v.Parent() != v.Pkg().Scope() || !types.Identical(v.Type(), errorType) {
+		return false
+	}
+	if p.sentinels == nil {
+		p.sentinels = map[*types.Var]bool{}
+	}
+	if r, has := p.sentinels[v]; has {
+		return r
+	}
+	res := false
+	if pk := p.Pkgs[v.Pkg().Path()]; pk != nil && pk.TypesInfo != nil {
+		for _, file := range pk.Syntax {
+			ast.Inspect(file, func(n ast.Node) bool {
+				switch x := n.(type) {
+				case *ast.ValueSpec:
+					for i, nm := range x.Names {
+						if pk.TypesInfo.Defs[nm] == v && i < len(x.Values) {
+							if c, isCall := ast.Unparen(x.Values[i]).(*ast.CallExpr); isCall && isErrorConstructor(calleeShort(pk.TypesInfo, c)) {
+								res = true
+							}
+						}
+					}
+				}
+				return true
+			})
+		}
+		if res {
+			for _, file := range pk.Syntax {
+				ast.Inspect(file, func(n ast.Node) bool {
+					switch x := n.(type) {
+					case *ast.AssignStmt:
+						for _, l := range x.Lhs {
+							if id, isId := ast.Unparen(l).(*ast.Ident); isId && pk.TypesInfo.Uses[id] == v {
+								res = false
+							}
+						}
+					case *ast.UnaryExpr:
+						if id, isId := ast.Unparen(x.X).(*ast.Ident); x.Op == token.AND && isId && pk.TypesInfo.Uses[id] == v {
+							res = false
+						}
+					}
+					return true
+				})
+			}
+		}
+	}
+	p.sentinels[v] = res
+	return res
+}
+
 // recvObj returns the receiver variable of a method declaration (nil for functions and
 // anonymous receivers).
 func recvObj(info *types.Info, fd *ast.FuncDecl) types.Object {
@@ -1936,7 +2059,7 @@ func (f *FuncCFG) expand(depth int, onStack map[*types.Func]bool) {
 				f.regionOf = map[*cfg.Block]*region{}
 			}
 			f.regionOf[tail] = f.regionOf[b]
-			reg := &region{call: call, fd: fd, callPt: Point{tail, 0}, parent: f.regionOf[b], recvX: recvX, recvPt: recvPt}
+			reg := &region{call: call, fd: fd, callPt: Point{tail, 0}, argPt: Point{b, i}, parent: f.regionOf[b], recvX: recvX, recvPt: recvPt}
 			if litEnv != nil && recvX == nil {
 				// the literal came out of a closure factory: the factory's bindings sit between the
 				// literal and the frame of the call
@@ -1946,6 +2069,13 @@ func (f *FuncCFG) expand(depth int, onStack map[*types.Func]bool) {
 			b.Nodes = b.Nodes[:i:i]
 			entry := sub.G.Blocks[0]
 			b.Succs = []*cfg.Block{entry}
+			if f.regionEntry == nil {
+				f.regionEntry = map[*cfg.Block]*region{}
+			}
+			for k, v := range sub.regionEntry {
+				f.regionEntry[k] = v
+			}
+			f.regionEntry[entry] = reg
 			// error correlation: if the continuation is `err := helper(...)` followed at once by the
 			// nil test of that error, a return of the helper that is known to hand back a non-nil
 			// (nil) error continues on the failure (success) branch only. Without this, the expanded
